@@ -1484,6 +1484,8 @@ class composite_if(x12_node):
         valid = True
         if (comp_data is None or comp_data.is_empty()) and self.usage in ('N', 'S'):
             return True
+        # errors about the composite as a whole belong at its own position
+        errh.add_ele(self)
 
         if self.usage == 'R':
             good_flag = False
